@@ -73,13 +73,21 @@ fn vec_compare<V: Vector<Tracked>, const CAP: usize>(v: &V, m: &VecModel<CAP>) {
     }
 }
 
-fn vec_history<V: Vector<Tracked>, const CAP: usize, const STEPS: usize>(v: &mut V) {
+/// OPSET 0: push/pop/insert/remove   OPSET 1: push/truncate/clear/extend_from_slice/resize_with
+/// (two smaller solver queries instead of one; every operation is in one of them, push in both)
+fn vec_history<V: Vector<Tracked>, const CAP: usize, const STEPS: usize, const OPSET: u8>(v: &mut V) {
     let mut m = VecModel::<CAP>::new();
     let mut was_full = false;
     let mut refused = false;
     let mut step = 0;
     while step < STEPS {
-        let op: u8 = kani::any();
+        let sel: u8 = kani::any();
+        kani::assume(sel < 5);
+        let op: u8 = if OPSET == 0 {
+            if sel >= 3 { 3 } else { sel }
+        } else {
+            if sel == 0 { 0 } else { sel + 3 }
+        };
         let x: u8 = kani::any();
         let idx: usize = kani::any();
         kani::assume(idx <= CAP + 1);
@@ -97,7 +105,7 @@ fn vec_history<V: Vector<Tracked>, const CAP: usize, const STEPS: usize>(v: &mut
                     refused = true;
                 }
             }
-            1 => match v.pop() {
+            1 if OPSET == 0 => match v.pop() {
                 Some(e) => {
                     assert!(m.len > 0);
                     let (id, val) = m.remove(m.len - 1);
@@ -105,7 +113,7 @@ fn vec_history<V: Vector<Tracked>, const CAP: usize, const STEPS: usize>(v: &mut
                 }
                 None => assert!(m.len == 0, "c16: pop returned None on a non-empty vector"),
             },
-            2 => {
+            2 if OPSET == 0 => {
                 let e = Tracked::new(x);
                 let id = e.id;
                 let r = v.insert(idx, e);
@@ -121,7 +129,7 @@ fn vec_history<V: Vector<Tracked>, const CAP: usize, const STEPS: usize>(v: &mut
                     m.insert(idx, id, x);
                 }
             }
-            3 => match v.remove(idx) {
+            3 if OPSET == 0 => match v.remove(idx) {
                 Some(e) => {
                     assert!(idx < m.len, "c16: remove succeeded out of bounds");
                     let (id, val) = m.remove(idx);
@@ -129,21 +137,21 @@ fn vec_history<V: Vector<Tracked>, const CAP: usize, const STEPS: usize>(v: &mut
                 }
                 None => assert!(idx >= m.len, "c16: remove refused a valid index"),
             },
-            4 => {
+            4 if OPSET == 1 => {
                 v.truncate(idx);
                 while m.len > idx {
                     let (id, _) = m.remove(m.len - 1);
                     assert!(!is_live(id), "c16: truncated element not dropped");
                 }
             }
-            5 => {
+            5 if OPSET == 1 => {
                 v.clear();
                 while m.len > 0 {
                     let (id, _) = m.remove(m.len - 1);
                     assert!(!is_live(id), "c16: cleared element not dropped");
                 }
             }
-            6 => {
+            6 if OPSET == 1 => {
                 // extend_from_slice clones: the new element gets a fresh id
                 let src = [Tracked::new(x)];
                 let first_new = unsafe { NEXT } as u8;
@@ -160,6 +168,7 @@ fn vec_history<V: Vector<Tracked>, const CAP: usize, const STEPS: usize>(v: &mut
                     refused = true;
                 }
             }
+            _ if OPSET == 0 => {}
             _ => {
                 // resize_with: grows with fresh elements or truncates
                 let first_new = unsafe { NEXT } as u8;
@@ -191,23 +200,22 @@ fn vec_history<V: Vector<Tracked>, const CAP: usize, const STEPS: usize>(v: &mut
     kani::cover!(refused, "an operation beyond capacity was refused");
 }
 
-proof!(22, fn c16_static_vec_history() {
-    {
-        let mut v = StaticVec::<Tracked, 2>::new();
-        vec_history::<_, 2, 4>(&mut v);
-    }
-    assert_all_dropped();
-    canaries();
-});
-
-proof!(22, fn c16_static_vec_history_deep() {
-    {
-        let mut v = StaticVec::<Tracked, 3>::new();
-        vec_history::<_, 3, 6>(&mut v);
-    }
-    assert_all_dropped();
-    canaries();
-});
+macro_rules! static_vec_h {
+    ($name:ident, $cap:literal, $steps:literal, $opset:literal) => {
+        proof!(9, fn $name() {
+            {
+                let mut v = StaticVec::<Tracked, $cap>::new();
+                vec_history::<_, $cap, $steps, $opset>(&mut v);
+            }
+            assert_all_dropped();
+            canaries();
+        });
+    };
+}
+static_vec_h!(c16_static_vec_history_a, 2, 4, 0);
+static_vec_h!(c16_static_vec_history_b, 2, 4, 1);
+static_vec_h!(c16_static_vec_history_deep_a, 3, 6, 0);
+static_vec_h!(c16_static_vec_history_deep_b, 3, 5, 1);
 
 #[repr(C)]
 struct RelocVecBlock<const CAP: usize> {
@@ -215,7 +223,7 @@ struct RelocVecBlock<const CAP: usize> {
     data: [MaybeUninit<Tracked>; CAP],
 }
 
-fn reloc_vec_run<const CAP: usize, const STEPS: usize>() {
+fn reloc_vec_run<const CAP: usize, const STEPS: usize, const OPSET: u8>() {
     {
         let mut b = RelocVecBlock::<CAP> {
             vec: unsafe { RelocatableVec::new_uninit(CAP) },
@@ -226,21 +234,18 @@ fn reloc_vec_run<const CAP: usize, const STEPS: usize>() {
             core::mem::size_of::<[MaybeUninit<Tracked>; CAP]>(),
         );
         assert!(unsafe { b.vec.init(&alloc) }.is_ok());
-        vec_history::<_, CAP, STEPS>(&mut b.vec);
+        vec_history::<_, CAP, STEPS, OPSET>(&mut b.vec);
     }
     assert_all_dropped();
     canaries();
 }
 
-proof!(22, fn c16_relocatable_vec_history() {
-    reloc_vec_run::<2, 4>();
-});
+proof!(9, fn c16_relocatable_vec_history_a() { reloc_vec_run::<2, 4, 0>(); });
+proof!(9, fn c16_relocatable_vec_history_b() { reloc_vec_run::<2, 4, 1>(); });
+proof!(9, fn c16_relocatable_vec_history_deep_a() { reloc_vec_run::<3, 6, 0>(); });
+proof!(9, fn c16_relocatable_vec_history_deep_b() { reloc_vec_run::<3, 5, 1>(); });
 
-proof!(22, fn c16_relocatable_vec_history_deep() {
-    reloc_vec_run::<3, 6>();
-});
-
-fn poly_vec_run<const CAP: usize, const STEPS: usize>() {
+fn poly_vec_run<const CAP: usize, const STEPS: usize, const OPSET: u8>() {
     let mut mem = Block::<64>::new();
     {
         let alloc = FixedSizePoolAllocator::<2>::new(
@@ -250,7 +255,7 @@ fn poly_vec_run<const CAP: usize, const STEPS: usize>() {
         );
         {
             let mut v = PolymorphicVec::<Tracked, _>::new(&alloc, CAP).unwrap();
-            vec_history::<_, CAP, STEPS>(&mut v);
+            vec_history::<_, CAP, STEPS, OPSET>(&mut v);
             // try_clone copies element-wise into a second bucket
             let before = unsafe { NEXT };
             let c = v.try_clone().unwrap();
@@ -266,13 +271,10 @@ fn poly_vec_run<const CAP: usize, const STEPS: usize>() {
     canaries();
 }
 
-proof!(22, fn c16_polymorphic_vec_history() {
-    poly_vec_run::<2, 3>();
-});
-
-proof!(22, fn c16_polymorphic_vec_history_deep() {
-    poly_vec_run::<3, 5>();
-});
+proof!(9, fn c16_polymorphic_vec_history_a() { poly_vec_run::<2, 3, 0>(); });
+proof!(9, fn c16_polymorphic_vec_history_b() { poly_vec_run::<2, 3, 1>(); });
+proof!(9, fn c16_polymorphic_vec_history_deep_a() { poly_vec_run::<3, 5, 0>(); });
+proof!(9, fn c16_polymorphic_vec_history_deep_b() { poly_vec_run::<3, 4, 1>(); });
 
 // ------------------------------------------------------------------------------------------
 // queues (incl. overflowing push)
@@ -390,7 +392,7 @@ fn queue_history<Q: QLike, const CAP: usize, const STEPS: usize>(q: &mut Q) {
     kani::cover!(wrapped > CAP, "ring index wrapped around");
 }
 
-proof!(22, fn c16_fixed_size_queue_history() {
+proof!(9, fn c16_fixed_size_queue_history() {
     {
         let mut q = FixedSizeQueue::<Tracked, 2>::new();
         queue_history::<_, 2, 4>(&mut q);
@@ -401,7 +403,7 @@ proof!(22, fn c16_fixed_size_queue_history() {
     canaries();
 });
 
-proof!(22, fn c16_fixed_size_queue_history_deep() {
+proof!(9, fn c16_fixed_size_queue_history_deep() {
     {
         let mut q = FixedSizeQueue::<Tracked, 3>::new();
         queue_history::<_, 3, 6>(&mut q);
@@ -411,7 +413,7 @@ proof!(22, fn c16_fixed_size_queue_history_deep() {
     canaries();
 });
 
-proof!(22, fn c16_owning_queue_history() {
+proof!(9, fn c16_owning_queue_history() {
     {
         let mut q = Queue::<Tracked>::new(2);
         queue_history::<_, 2, 4>(&mut q);
